@@ -188,8 +188,9 @@ Mon22Step(g, e) ==
 (* C24  Monitored item queues keep the right values and survive resizing    *)
 (* Ghost per item: eq = the queue the statement describes (values with the  *)
 (* overflow mark), batches = drained queues not yet seen in a response.     *)
+\* ovf = an overflow happened since the queue was last drained; bovf = the same for each drained queue not yet seen in a response
 M24Init == [eq |-> [p \in Pairs |-> <<>>], lastv |-> [p \in Pairs |-> NoVal], dold |-> [p \in Pairs |-> TRUE],
-            batches |-> [p \in Pairs |-> <<>>], ovf |-> [p \in Pairs |-> FALSE]]
+            batches |-> [p \in Pairs |-> <<>>], ovf |-> [p \in Pairs |-> FALSE], bovf |-> [p \in Pairs |-> <<>>]]
 
 Vals24(q) == [j \in 1..Len(q) |-> q[j][1]]
 LastN(q, n) == IF Len(q) > n THEN SubSeq(q, Len(q) - n + 1, Len(q)) ELSE q
@@ -219,6 +220,18 @@ Mon24Step(g, e) ==
                    THEN Vals24(rs[j].vals[CHOOSE k \in 1..Len(rs[j].vals) : rs[j].vals[k][1] = p[2]][2]) ELSE <<-99>>],
                  LAMBDA x : x # <<-99>>)
       b1(p) == IF newItem(p) THEN <<>> ELSE IF drained(p) THEN Append(g.batches[p], eq1(p)) ELSE g.batches[p]
+      \* an overflow of a queue of more than one entry (the overflow of a queue of one is not marked, Part 4 7.20.1)
+      ovfNow(p) == sampled(p) /\ full(p) /\ it(p).qsize > 1
+      \* (a ModifyMonitoredItems in between may legitimately drop the marked entry: the flag restarts)
+      ovf1(p) == IF newItem(p) \/ ~has(p) \/ modItem(p) THEN FALSE ELSE g.ovf[p] \/ ovfNow(p)
+      bo1(p) == IF newItem(p) THEN <<>> ELSE IF drained(p) THEN Append(g.bovf[p], ovf1(p)) ELSE g.bovf[p]
+      \* the delivered batches of p in this record, with the overflow marks
+      marked(p) == SelectSeq([j \in 1..Len(rs) |->
+                      IF rs[j].k = "DATA" /\ rs[j].sub = p[1] /\ (\E k \in 1..Len(rs[j].vals) : rs[j].vals[k][1] = p[2])
+                      THEN LET b == rs[j].vals[CHOOSE k \in 1..Len(rs[j].vals) : rs[j].vals[k][1] = p[2]][2]
+                           IN IF \E m \in 1..Len(b) : b[m][2] = 1 THEN 1 ELSE 0
+                      ELSE 2],
+                    LAMBDA x : x # 2)
       v(p) ==
         IF ~has(p) THEN {}
         ELSE (IF Len(it(p).q) > it(p).qsize THEN {"queue-longer-than-queue-size"} ELSE {})
@@ -228,12 +241,16 @@ Mon24Step(g, e) ==
              \cup (IF sampled(p) /\ full(p) /\ it(p).qsize > 1 /\ it(p).q # <<>>
                       /\ ~(\E j \in 1..Len(it(p).q) : it(p).q[j][2] = 1)
                      THEN {"overflow-not-marked"} ELSE {})
+             \* a queue that overflowed and was then drained: the batch that is delivered carries the mark
+             \cup (IF \E j \in 1..Len(marked(p)) : j <= Len(bo1(p)) /\ bo1(p)[j] /\ marked(p)[j] = 0
+                     THEN {"overflow-not-marked-in-delivered-values"} ELSE {})
       g2 == [eq |-> [p \in Pairs |-> IF ~has(p) THEN <<>> ELSE IF drained(p) THEN <<>> ELSE eq1(p)],
              lastv |-> [p \in Pairs |-> IF newItem(p) \/ ~has(p) THEN NoVal ELSE it(p).last],
              dold |-> [p \in Pairs |-> IF newItem(p) \/ modItem(p) THEN e.dold ELSE g.dold[p]],
              batches |-> [p \in Pairs |-> IF ~has(p) THEN <<>>
                                           ELSE SubSeq(b1(p), Len(got(p)) + 1, Len(b1(p)))],
-             ovf |-> g.ovf]
+             ovf |-> [p \in Pairs |-> IF ~has(p) \/ drained(p) THEN FALSE ELSE ovf1(p)],
+             bovf |-> [p \in Pairs |-> IF ~has(p) THEN <<>> ELSE SubSeq(bo1(p), Len(got(p)) + 1, Len(bo1(p)))]]
   IN [g |-> g2, viol |-> UNION {v(p) : p \in Pairs}]
 
 -----------------------------------------------------------------------------
